@@ -986,3 +986,56 @@ def cases(tier, rng):
 KNOWN_WITNESSES = {
     KNOWN_KEY: _case('N1', 1000.0, 0, _feeds([10], {0: [[1, None, 3], [2, None, 4]]})),
 }
+
+
+# ====================================================================================================================
+# translator tie (added; nothing above depends on it): the integer bookkeeping of the coroutine capture_epoch and the
+# look-back bookkeeping of extract_epochs are regenerated from the source under test on every run
+# (translate/pycapture2coq.py -> coq/gen/CaptureGen.v); coq/Extract/ProofsTie.v proves the generated definitions equal
+# to Extract/Model.v (C05_source_* in coq/Props/C05.v).  A source the translator cannot digest, a failing self-test
+# against the real coroutines, or a tie theorem that no longer checks is reported by the driver as a broken tie.
+GEN = 'gen/CaptureGen.v'
+TRUSTED = TRUSTED + [
+    'translate/pycapture2coq.py (fail-closed ast translator coroutine -> step function: `slb, data = (yield)` iteration = one '
+    'step, `break` = finished, target(...) = the output; pinned and mapped: int(round(e)) = e on integers, data.shape[-1] = '
+    'zlen, data[..., a:b] = py_slice, concat(pieces, axis=-1) = List.concat, xs.append = snoc, l[0] / l.pop(0) = head / tail '
+    '(None = IndexError); pinned and dropped: `info = info.copy()`, `md = info.pop(\'metadata\', {})` (both the identity '
+    'c_rid), the log.warning lines, the `if hasattr(c, \'metadata\')` block (writes the metadata of the piece only); pinned '
+    'as text: the @coroutine decorator, the parameter names of capture_epoch, `buffer_samples = round(buffer_size * fs)`, the '
+    'four float conversions of a request and the capture_epoch(t0, epoch_samples, info, epochs.append, fs) call; statements '
+    'of extract_epochs outside the tlb / prior_samples slice only checked not to write those variables; the Coq printer. '
+    'Self-test on every run: the translation interpreted independently and, as Examples in the generated file, the emitted '
+    'text itself against the real coroutines on NumPy chunks, send by send, incl. auto_send=True and a negative look-back)',
+    'coq/Extract/ProofsTie.v: abs (the pieces kept joined, md = c_rid) as the reading of coroutine states as model captures']
+ASSUMPTIONS = ASSUMPTIONS + ['tie theorems: auto_send = False (wf_ce; refuted without), buffer_samples >= 0 for the pruning '
+                             'loop (refuted without: IndexError); removal / intake loops of extract_epochs are not translated '
+                             '(differential testing only)']
+
+
+def translate(repo):
+    """Regenerate coq/gen/CaptureGen.v from the source under test.  A translator gap or a failed self-test is written as a
+    generated file that does not compile, so that the driver reports the tie as broken (fail closed)."""
+    import os
+    import random
+    import vlib
+    from translate import pycapture2coq
+    info = {'gen_files': [GEN], 'source': [os.path.join(repo, 'psiaudio/pipeline.py')], 'gap': None}
+    try:
+        text, tinfo = pycapture2coq.translate(repo, random.Random(5))
+        info.update(tinfo)
+    except Exception as e:                  # Gap, or the real coroutine misbehaving under the self-test
+        why = f'{type(e).__name__}: {e}'
+        info['gap'] = why
+        msg = ''.join(ch if ch.isalnum() or ch in " _.,:;()[]{}=+-*/<>'`" else ' ' for ch in why)
+        msg = msg.replace('(*', '( *').replace('*)', '* )')[:400]
+        # deliberately ill-typed, so that the build fails and coqc's error message carries the reason
+        text = ('(* GENERATED by harness/C05.py translate(): translate/pycapture2coq.py could not digest\n'
+                f'   {repo}/psiaudio/pipeline.py *)\nFrom Coq Require Import ZArith String.\n'
+                f'Definition translator_gap : Z :=\n  "{msg}"%string.\n')
+    with open(os.path.join(vlib.COQ, GEN), 'w') as f:       # always rewritten: always re-checked
+        f.write(text)
+    # the correspondence files only need the hand-written model; make sure it is built even if the tie breaks
+    rc, out = vlib.coq_build('Extract/Spec.vo')
+    if rc != 0:
+        raise vlib.MachineryError('Extract/Spec.v does not build:\n' + out[-3000:])
+    return info
